@@ -430,10 +430,16 @@ void rc_tuples(const rc_rel_t *rel, const rc_state_t *st,
     }
 }
 
-/* factor that expresses a port quantity in root-power units */
-static double unit_factor(const rc_term_t *t, const double complex *z0)
+/*
+ * factor that expresses a port quantity in root-power units.  level[p] is
+ * the impedance level at which port p operates (typical |v| / |i| over the
+ * states drawn), which for a network matched to its reference impedances is
+ * of the order of |z0| but belongs to the network, not to z0: conversions
+ * inside the voltage/current family do not know z0 at all.
+ */
+static double unit_factor(const rc_term_t *t, const double *level)
 {
-    double r = sqrt(fabs(creal(z0[t->p])));
+    double r = sqrt(level[t->p]);
 
     switch (t->q) {
     case 'v': return 1.0 / r;
@@ -449,17 +455,30 @@ static double unit_factor(const rc_term_t *t, const double complex *z0)
  * algorithm -- no accuracy can be demanded then
  */
 static double cond_plain(int n, const double complex *m, const rc_term_t *terms,
-	const double complex *z0)
+	const double *level)
 {
     double complex s[RC_MAXN * RC_MAXN], inv[RC_MAXN * RC_MAXN];
 
     for (int i = 0; i < n; ++i) {
-	double u = unit_factor(&terms[i], z0);
+	double u = unit_factor(&terms[i], level);
 
 	for (int j = 0; j < n; ++j)
 	    s[i * n + j] = m[i * n + j] * u;
     }
     return rc_invert(n, s, inv);
+}
+
+/* level[p] = sum |v_p| / sum |i_p| over the states; |z0| where undefined */
+static void finish_levels(int n, const double *sv, const double *si,
+	const double complex *z0, double *level)
+{
+    for (int p = 0; p < n; ++p) {
+	double l = (sv[p] > 0.0 && si[p] > 0.0) ? sv[p] / si[p] : cabs(z0[p]);
+
+	if (!(l > 0.0) || !isfinite(l))
+	    l = cabs(z0[p]);
+	level[p] = l;
+    }
 }
 
 static bool all_finite(int n, const double complex *x)
@@ -471,6 +490,79 @@ static bool all_finite(int n, const double complex *x)
     return true;
 }
 
+/*
+ * n independent states of the network (rin, min).  The independent tuples
+ * are the columns of drive[], each row expressed in root-power units at the
+ * impedance level of its port (a tuple mixing volts and amperes, as for H, G,
+ * A, B, would otherwise describe wildly unbalanced excitations for networks
+ * far from 1 ohm).  The levels are found by iteration from |z0|.
+ */
+static int make_states(const rc_rel_t *rin, const double complex *min,
+	const double complex *z0, const double complex *drive,
+	rc_state_t *sts, double *level)
+{
+    int n = rin->n;
+    bool imposed[RC_MAXN];
+
+    /* a port whose voltage AND current are both in the independent tuple
+     * (port 2 for A, port 1 for B) has no level of its own: any v / i ratio
+     * may be imposed there; it takes the level of the other ports */
+    for (int p = 0; p < n; ++p) {
+	bool hv = false, hi = false;
+
+	for (int k = 0; k < n; ++k) {
+	    if (rin->ind[k].p == p && rin->ind[k].q == 'v')
+		hv = true;
+	    if (rin->ind[k].p == p && rin->ind[k].q == 'i')
+		hi = true;
+	}
+	imposed[p] = hv && hi;
+	level[p] = cabs(z0[p]);
+    }
+    for (int iter = 0; iter < 12; ++iter) {
+	double sv[RC_MAXN] = {0}, si[RC_MAXN] = {0}, newlevel[RC_MAXN];
+	double change = 0.0;
+
+	for (int j = 0; j < n; ++j) {
+	    double complex ind[RC_MAXN];
+
+	    for (int k = 0; k < n; ++k) {
+		ind[k] = drive[k * n + j] /
+		    unit_factor(&rin->ind[k], level);
+	    }
+	    if (rc_state_from(rin, min, ind, z0, &sts[j]) != 0)
+		return -1;
+	    for (int p = 0; p < n; ++p) {
+		sv[p] += cabs(sts[j].v[p]);
+		si[p] += cabs(sts[j].i[p]);
+	    }
+	}
+	finish_levels(n, sv, si, z0, newlevel);
+	{
+	    double lg = 0.0;
+	    int cnt = 0;
+
+	    for (int p = 0; p < n; ++p) {
+		if (!imposed[p]) {
+		    lg += log(newlevel[p]);
+		    ++cnt;
+		}
+	    }
+	    for (int p = 0; p < n && cnt > 0; ++p) {
+		if (imposed[p])
+		    newlevel[p] = exp(lg / cnt);
+	    }
+	}
+	for (int p = 0; p < n; ++p) {
+	    change = fmax(change, fabs(log(newlevel[p] / level[p])));
+	    level[p] = newlevel[p];
+	}
+	if (!(change > 0.05))
+	    break;
+    }
+    return 0;
+}
+
 void rc_check(const rc_rel_t *rin, const double complex *min,
 	const rc_rel_t *rout, const double complex *mout,
 	const double complex *z0, const double complex *drive,
@@ -480,6 +572,8 @@ void rc_check(const rc_rel_t *rin, const double complex *min,
     double complex Dm[RC_MAXN * RC_MAXN], Im[RC_MAXN * RC_MAXN];
     double scale[RC_MAXN] = {0};
     double dmag[RC_MAXN * RC_MAXN];
+    double level[RC_MAXN];
+    rc_state_t sts[RC_MAXN];
     double worst = 0.0;
 
     res->decided = false;
@@ -493,26 +587,23 @@ void rc_check(const rc_rel_t *rin, const double complex *min,
     }
     if (!all_finite(n * n, min))
 	return;
+    if (make_states(rin, min, z0, drive, sts, level) != 0)
+	return;
     for (int j = 0; j < n; ++j) {
-	double complex ind[RC_MAXN], d[RC_MAXN], i2[RC_MAXN];
-	rc_state_t st;
+	double complex d[RC_MAXN], i2[RC_MAXN];
 
-	for (int k = 0; k < n; ++k)
-	    ind[k] = drive[k * n + j];
-	if (rc_state_from(rin, min, ind, z0, &st) != 0)
-	    return;
-	rc_tuples(rout, &st, d, i2);
+	rc_tuples(rout, &sts[j], d, i2);
 	for (int k = 0; k < n; ++k) {
 	    Dm[k * n + j] = d[k];
 	    Im[k * n + j] = i2[k];
-	    scale[k] = fmax(scale[k], magnitude(&st, &rout->ind[k]));
-	    dmag[k * n + j] = magnitude(&st, &rout->dep[k]);
+	    scale[k] = fmax(scale[k], magnitude(&sts[j], &rout->ind[k]));
+	    dmag[k * n + j] = magnitude(&sts[j], &rout->dep[k]);
 	}
     }
     if (!all_finite(n * n, Dm) || !all_finite(n * n, Im))
 	return;
     res->cond = fmax(cond_equilibrated(n, Im, scale, NULL),
-	    cond_plain(n, Im, rout->ind, z0));
+	    cond_plain(n, Im, rout->ind, level));
     if (!(res->cond <= cond_max))
 	return;
     res->decided = true;
@@ -551,21 +642,20 @@ double rc_reference(const rc_rel_t *rin, const double complex *min,
     double complex Dm[RC_MAXN * RC_MAXN], Im[RC_MAXN * RC_MAXN],
 		   Iinv[RC_MAXN * RC_MAXN];
     double scale[RC_MAXN] = {0};
+    double level[RC_MAXN];
+    rc_state_t sts[RC_MAXN];
     double cond;
 
+    if (make_states(rin, min, z0, drive, sts, level) != 0)
+	return HUGE_VAL;
     for (int j = 0; j < n; ++j) {
-	double complex ind[RC_MAXN], d[RC_MAXN], i2[RC_MAXN];
-	rc_state_t st;
+	double complex d[RC_MAXN], i2[RC_MAXN];
 
-	for (int k = 0; k < n; ++k)
-	    ind[k] = drive[k * n + j];
-	if (rc_state_from(rin, min, ind, z0, &st) != 0)
-	    return HUGE_VAL;
-	rc_tuples(rout, &st, d, i2);
+	rc_tuples(rout, &sts[j], d, i2);
 	for (int k = 0; k < n; ++k) {
 	    Dm[k * n + j] = d[k];
 	    Im[k * n + j] = i2[k];
-	    scale[k] = fmax(scale[k], magnitude(&st, &rout->ind[k]));
+	    scale[k] = fmax(scale[k], magnitude(&sts[j], &rout->ind[k]));
 	}
     }
     if (!all_finite(n * n, Dm) || !all_finite(n * n, Im))
@@ -573,7 +663,7 @@ double rc_reference(const rc_rel_t *rin, const double complex *min,
     cond = cond_equilibrated(n, Im, scale, Iinv);
     if (cond == HUGE_VAL)
 	return HUGE_VAL;
-    cond = fmax(cond, cond_plain(n, Im, rout->ind, z0));
+    cond = fmax(cond, cond_plain(n, Im, rout->ind, level));
     for (int k = 0; k < n; ++k) {
 	for (int m = 0; m < n; ++m) {
 	    double complex acc = 0.0;
@@ -591,7 +681,8 @@ void rc_check_zin(const rc_rel_t *rin, const double complex *min,
 	double cond_max, rc_result_t *res)
 {
     int n = rin->n;
-    double complex A[RC_MAXN * RC_MAXN], Ainv[RC_MAXN * RC_MAXN];
+    double complex A[RC_MAXN * RC_MAXN], Ainv[RC_MAXN * RC_MAXN],
+		   An[RC_MAXN * RC_MAXN];
     double scale[RC_MAXN] = {0};
     double worst = 0.0;
 
@@ -613,16 +704,42 @@ void rc_check_zin(const rc_rel_t *rin, const double complex *min,
 	    ind[k] = k == m ? 1.0 : 0.0;
 	if (rc_state_from(rin, min, ind, z0, &st) != 0)
 	    return;
-	for (int j = 0; j < n; ++j) {
-	    A[j * n + m] = st.a[j];
-	    scale[j] = fmax(scale[j], st.ma[j]);
+	{
+	    /* the unit excitations are in arbitrary units (1 V, 1 A, 1
+	     * sqrt(W)): bring each column to unit size */
+	    double cm = 0.0;
+
+	    for (int j = 0; j < n; ++j)
+		cm = fmax(cm, st.ma[j]);
+	    if (!(cm > 0.0) || !isfinite(cm))
+		return;
+	    for (int j = 0; j < n; ++j) {
+		A[j * n + m] = st.a[j];
+		An[j * n + m] = st.a[j] / cm;
+		scale[j] = fmax(scale[j], st.ma[j] / cm);
+	    }
 	}
     }
     if (!all_finite(n * n, A))
 	return;
-    res->cond = cond_equilibrated(n, A, scale, Ainv);
-    if (res->cond != HUGE_VAL)
-	res->cond = fmax(res->cond, rc_invert(n, A, Ainv));
+    res->cond = cond_equilibrated(n, An, scale, NULL);
+    if (res->cond != HUGE_VAL && rc_invert(n, A, Ainv) == HUGE_VAL)
+	res->cond = HUGE_VAL;
+    if (res->cond != HUGE_VAL) {
+	/* plain condition number, columns (the arbitrary unit excitations)
+	 * brought to unit size first */
+	double complex Ac[RC_MAXN * RC_MAXN], tmp[RC_MAXN * RC_MAXN];
+
+	for (int m = 0; m < n; ++m) {
+	    double mx = 0.0;
+
+	    for (int j = 0; j < n; ++j)
+		mx = fmax(mx, cabs(A[j * n + m]));
+	    for (int j = 0; j < n; ++j)
+		Ac[j * n + m] = mx > 0.0 ? A[j * n + m] / mx : 0.0;
+	}
+	res->cond = fmax(res->cond, rc_invert(n, Ac, tmp));
+    }
     if (!(res->cond <= cond_max))
 	return;
     int ports_decided = 0;
